@@ -32,6 +32,7 @@ struct Buf {
         uint8_t *p = nullptr; // user pointer
         size_t len = 0;
         bool readonly = false;
+        bool noaccess = false;
 };
 
 static inline uint8_t canary_at(const uint8_t *a) { return (uint8_t) ((((uintptr_t) a * 0x9E3779B1u) >> 11) ^ 0xA5); }
@@ -106,10 +107,19 @@ struct Arena {
                 mprotect(b->rw, b->rw_len, ro ? PROT_READ : (PROT_READ | PROT_WRITE));
                 b->readonly = ro;
         }
+        void set_noaccess(const void *p)
+        {
+                Buf *b = find(p);
+                if (!b) return;
+                mprotect(b->rw, b->rw_len, PROT_NONE);
+                b->readonly = true;
+                b->noaccess = true;
+        }
         // returns "" if all canaries are intact, otherwise a description of the first damaged byte
         std::string check_canaries() const
         {
                 for (auto &b : bufs) {
+                        if (b.noaccess) continue;
                         for (const uint8_t *q = b.rw; q < b.rw + b.rw_len; q++) {
                                 if (q >= b.p && q < b.p + b.len) { q = b.p + b.len - 1; continue; }
                                 if (*q != canary_at(q)) {
